@@ -24,29 +24,45 @@ def _clock_selftest(chk):
 def run(chk):
     chk.audit(PROPS)
     _clock_selftest(chk)
-    n = 4000 if chk.tier == 'quick' else 150000
+    n = 10000 if chk.tier == "quick" else 150000
     results = core.e1_flow(chk, 'scen_eager', 'eager', {'C19'},
                            lambda rng: scen_eager.gen_case(rng, chk.tier), n, keyfn=keyfn,
                            corpus=CORPUS, escalate_n=1500)
     # distribution actually produced
-    dist = dict(bias={}, bs={}, wait={}, end_marker={}, ties=0, short_by_timeout=0, short_by_marker=0, full=0,
-                never_ended=0, holds=0)
+    dist = dict(bias={}, bs={}, wait={}, end_marker={}, lazy_time=0, deadline_ties_item_taken=0, deadline_ties_item_missed=0,
+                taken_past_deadline=0, short_by_timeout=0, short_by_marker=0, full=0, never_ended=0, holds=0)
     for case, res in results:
         for k, v in (('bias', case.get('bias')), ('bs', case['bs']), ('wait', case['wait']),
                      ('end_marker', repr(case['end']))):
             dist[k][str(v)] = dist[k].get(str(v), 0) + 1
         ev = res.get('events', [])
-        stamps = [(e[0], e[-1]) for e in ev]
-        arr_t = {t for k, t in stamps if k == 'arrive'}
-        emit_t = {t for k, t in stamps if k == 'emit'}
-        dist['ties'] += bool(arr_t & emit_t)
+        wait = scen_eager.eff_wait(case)
+        dist['lazy_time'] += bool(case.get('lazy'))
         dist['never_ended'] += not any(e[0] == 'stop' for e in ev)
         dist['holds'] += any(h > 0 for h in case.get('holds', []))
         last_end = False
+        t0 = None            # take time of the current batch's first item
+        tie_pending = False  # an item arrived at exactly t0 + wait while the batch was being collected
+        endc = scen_eager.enc(case['end'])
         for e in ev:
-            if e[0] == 'take':
-                last_end = scen_eager.enc(case['end']) == e[1]
+            if e[0] == 'arrive':
+                if t0 is not None and wait > 0 and e[2] == t0 + wait:
+                    tie_pending = True
+            elif e[0] == 'take':
+                last_end = endc == e[1]
+                if t0 is None and not last_end:
+                    t0 = e[2]
+                elif t0 is not None:
+                    if tie_pending:
+                        dist['deadline_ties_item_taken'] += 1
+                        tie_pending = False
+                    if e[2] > t0 + wait:
+                        dist['taken_past_deadline'] += 1
             elif e[0] == 'emit':
+                if tie_pending:
+                    dist['deadline_ties_item_missed'] += 1
+                tie_pending = False
+                t0 = None
                 if len(e[1]) >= case['bs']:
                     dist['full'] += 1
                 elif last_end:
@@ -57,7 +73,8 @@ def run(chk):
     chk.cov['rule'] = ('cases = random (batch_size, batch_wait_time incl. 0 and the constructor default, end marker '
                        'None/int/float/bool/str, arrival script with times in dyadic units incl. bursts, arrivals at the '
                        'very instant of deadlines and resumes, marker first / in the middle / followed by more puts / never '
-                       'sent, consumer hold times, chooser, seed) run on the real EagerBatcher fed through a queue.Queue by a '
+                       'sent, consumer hold times, strict vs lazy time (timers fired although threads are runnable), chooser, '
+                       'seed) run on the real EagerBatcher fed through a queue.Queue by a '
                        'producer thread under the deterministic scheduler with virtual time; plus a fixed corpus of '
                        'boundary cases; non-trivial = >= 2 items before the marker, >= 1 batch and >= 1 context switch; '
                        'distinct = distinct (case, timed event trace)')
@@ -88,6 +105,10 @@ for _seed in (1, 2, 3):
             _c(4, 3, [(0, 1), (1, 2), (9, 3)], chooser=_ch, seed=_seed),                     # no marker: last batch by expiry
             _c(2, 3, [(0, 1), (1, 'END'), (1, 5)], end='END', chooser=_ch, seed=_seed),
             _c(3, 3, [(0, 1), (1, 2)], end=None, explicit_none=True, chooser=_ch, seed=_seed),
+            _c(3, 2, [(0, 1), (1, 2), (3, 3), (4, 4), (9, None)], holds=[2], lazy=True,
+               chooser=_ch[:-1] + (0.3,), seed=_seed),                                       # time passes while runnable
+            _c(4, 0, [(0, 1), (1, 2), (2, 3), (3, 4), (4, 5), (5, None)], holds=[3, 3], lazy=True,
+               chooser=_ch[:-1] + (0.3,), seed=_seed),
         ]
 
 
@@ -104,8 +125,10 @@ TRUSTED = [
     'queue assumptions',
 ]
 ASSUMPTIONS = [
-    'zero processing time: virtual time advances only while every thread is blocked, i.e. the code\'s own steps take no time '
-    '(model: tick is enabled only when the batcher cannot move); with real processing time emission is later by that time',
+    'no-delay (C19_no_delay, C19_timeout_exact, C19_tick_only_when_blocked; monitor rule no-delay) is stated and checked under '
+    'zero processing time: virtual time advances only while every thread is blocked (model: strict = true, tick enabled only '
+    'when the batcher cannot move); with real processing time emission is later by that time. Partition and short-only-if are '
+    'also proved and checked with time passing at any moment (strict = false; lazy cases)',
     't_first (t0) is the clock at which the batcher OBTAINS the first item of a batch (the code starts its timer there), not '
     'the item\'s arrival time; they differ when the consumer held the previous batch',
     'the correspondence was checked on the arrival scripts and schedules explored in this run only; the theorems quantify over all',
